@@ -34,6 +34,15 @@ impl ResolvedCalendarFields {
         overflow: ArithmeticOverflow,
         resolve_type: ResolutionType,
     ) -> TemporalResult<Self> {
+        // A record that lacks a required field is a TypeError whatever its other fields hold:
+        // the presence of the fields is established before any value is judged.
+        if resolve_type != ResolutionType::YearMonth && partial_date.day.is_none() {
+            return Err(TemporalError::r#type().with_message("Required day field is empty."));
+        }
+        if partial_date.month.is_none() && partial_date.month_code.is_none() {
+            return Err(TemporalError::r#type()
+                .with_message("Required month or monthCode field is empty."));
+        }
         let era_year = if resolve_type == ResolutionType::MonthDay
             && partial_date.calendar.is_iso()
             && partial_date.year.is_none()
